@@ -285,6 +285,8 @@ class graph(Graph):
             mz.write(vaddr, v)
             self.add_edge(link(oldnode, v))
             for n in oldnode.N(+1):
+                if n is v:
+                    continue
                 self.add_edge(link(v, n))
                 self.remove_edge(oldnode.e_to(n))
             return v
